@@ -724,7 +724,7 @@ def _cli_args(cx, flag=None, k=None):
     elif flag == "fix_default":
         args += ["--fix"]
     if m["prefix"] == "" and cx.case["k"] % 2:
-        # the defaults must be what the model calls default
+        # half of the cases with the default (empty) prefix rely on the command's own default
         del args[2:4]
     return args
 
